@@ -32,11 +32,17 @@ Theorem C18_resolve_exact_wins : forall P f have i,
 Proof. exact resolve_exact_wins. Qed.
 Print Assumptions C18_resolve_exact_wins.
 
-(* 3. UNION / EXCEPT / INTERSECT: every output column gets ONE type; it is the type of one branch, and the
-   other branch either already has it or has an implicit cast to it (any score table). *)
+(* 3. UNION / EXCEPT / INTERSECT: accepted only for equal column counts; every output column gets ONE type; it is
+   the type of one branch, and the other branch either already has it or has an implicit cast to it (any table). *)
+Theorem C18_union_arity_checked : forall P ls rs out,
+  unify_cols P ls rs = Some out ->
+  List.length ls = List.length rs /\ List.length out = List.length ls.
+Proof. exact union_arity_checked. Qed.
+Print Assumptions C18_union_arity_checked.
+
 Theorem C18_union_types_unified : forall P ls rs out,
   unify_cols P ls rs = Some out ->
-  List.length out = Nat.min (List.length ls) (List.length rs) /\
+  List.length ls = List.length rs /\ List.length out = List.length ls /\
   forall k l r o, nth_error ls k = Some l -> nth_error rs k = Some r -> nth_error out k = Some o ->
     match snd o with
     | SNone => fst o = l /\ l = r
@@ -46,10 +52,29 @@ Theorem C18_union_types_unified : forall P ls rs out,
 Proof. exact union_types_unified. Qed.
 Print Assumptions C18_union_types_unified.
 
-(* 4. REFUTED part of the full-strength statement: the set-operation binder does not require the branches to
-   have the same number of columns (it zips the two lists).  Witness: one Int32 column UNION two Int32 columns;
-   on the engine: `SELECT 1 UNION ALL SELECT 2, 3` is accepted by the binder (findings/C18.json). *)
-Theorem C18_union_arity_checked_refuted :
-  exists P ls rs out, src_params = Some P /\ List.length ls <> List.length rs /\ unify_cols P ls rs = Some out.
-Proof. exact union_arity_checked_refuted. Qed.
-Print Assumptions C18_union_arity_checked_refuted.
+(* 4. the length test is what makes 3 hold: the zip loop alone (the binder before the repair f82a4c29b) accepts
+   one Int32 column UNION two Int32 columns; the current rule rejects it *)
+Theorem C18_union_zip_alone_accepts_unequal_arity :
+  exists P ls rs out, src_params = Some P /\ List.length ls <> List.length rs /\ unify_zip P ls rs = Some out /\
+                      unify_cols P ls rs = None.
+Proof. exact union_zip_alone_accepts_unequal_arity. Qed.
+Print Assumptions C18_union_zip_alone_accepts_unequal_arity.
+
+(* 5. Type soundness of the announced type (model/Typing.v: integer widths with the promotion and literal
+   refinement rules, comparisons -> Boolean, CASE branch unification) against the reference evaluation of
+   model/Sql.v: a value an expression evaluates to inhabits the type the expression announces, or is NULL.
+   (EScalar is not typed by the model: type_of returns None for it.) *)
+From GV Require Import model.Sql model.Typing proofs.TypingProofs.
+Theorem C18_eval_has_announced_type : forall e te t d en v,
+  type_of te e = Some t -> env_ok en te -> eval_expr d en e = Sql.Ok v -> has_type v t.
+Proof. exact eval_has_announced_type. Qed.
+Print Assumptions C18_eval_has_announced_type.
+
+(* 6. aggregate results: count -> Int64, sum(int) -> Int64, min/max keep the input type, bool_and/bool_or ->
+   Boolean (row counts are assumed to fit Int64) *)
+Theorem C18_agg_has_announced_type : forall f dis nrows vs targ t v,
+  agg_type f targ = Some t -> Forall (fun x => has_type x targ) vs ->
+  in_range 64 (Z.of_nat nrows) = true -> in_range 64 (Z.of_nat (List.length (agg_values dis vs))) = true ->
+  agg_apply f dis nrows vs = Sql.Ok v -> has_type v t.
+Proof. exact agg_has_announced_type. Qed.
+Print Assumptions C18_agg_has_announced_type.
